@@ -19,6 +19,7 @@ import (
 	"errors"
 	"fmt"
 	"io"
+	"math"
 	"net/http"
 	"strconv"
 	"strings"
@@ -422,7 +423,15 @@ func restDecodeTimeout(timeout string) (time.Duration, error) {
 	if err != nil {
 		return 0, fmt.Errorf("invalid timeout %q: %w", timeout, err)
 	}
-	return time.Duration(val * float64(time.Second)), nil
+	if math.IsNaN(val) || val < 0 {
+		return 0, fmt.Errorf("invalid timeout %q: must not be negative", timeout)
+	}
+	// Round instead of truncating: 1.001 * 1e9 is 1000999999.9999999 in floating point.
+	nanos := math.Round(val * float64(time.Second))
+	if nanos >= math.MaxInt64 {
+		return time.Duration(math.MaxInt64), nil
+	}
+	return time.Duration(nanos), nil
 }
 
 // Encode timeout as a float in seconds for X-Server-Timeout header.
